@@ -54,6 +54,7 @@ def _build():
     class RecProcessLine(Base):
         _count = [0]
         _all   = []
+        slow_replacement_s, n_initial = 0, 0
         def __init__(self, line, callback=None, read_wait_store=None):
             self._vf_ord = RecProcessLine._count[0]; RecProcessLine._count[0] += 1
             user_cb = callback
@@ -66,6 +67,8 @@ def _build():
             super().__init__(line, cb, read_wait_store)
         def start(self):
             LINEAGE_LOG.append(("start", self._vf_ord, None))
+            if RecProcessLine.slow_replacement_s and self._vf_ord >= RecProcessLine.n_initial:
+                time.sleep(RecProcessLine.slow_replacement_s)          # a slow launch of a replacement worker
             super().start()
             RecProcessLine._all.append(self)
     RecProcessLine.__module__ = "vf.components"
